@@ -6,6 +6,8 @@
 //! exit 0: property held on everything explored; 1: VIOLATION printed; 2: infrastructure problem
 
 mod api;
+mod conv;
+mod frames;
 mod engine;
 mod gen;
 mod oracle;
@@ -56,6 +58,11 @@ fn main() {
         eprintln!("unknown property {id}");
         std::process::exit(2);
     };
+
+    // ---- supervision: properties whose violations can kill the process run in a child
+    if prop.isolated && std::env::var("VCHECK_CHILD").is_err() {
+        std::process::exit(supervise(&args, &id, &verif_root, &build));
+    }
 
     // ---- single replay mode
     if let Some(file) = arg_value(&args, "--replay") {
@@ -224,4 +231,72 @@ fn write_evidence(path: &Path, ctx: &Ctx, st: &Stats, rule: &str, assumptions: &
         "violations": violations,
     });
     let _ = std::fs::write(path, serde_json::to_string_pretty(&ev).unwrap());
+}
+
+/// Run this same command line in a child process. Exit codes 0/1/2 of the child are passed
+/// through (it printed its own report and wrote its own evidence). Any other termination (signal,
+/// abort from std's ub_checks, stack overflow) is attributed to the cases journalled by the child:
+/// each is re-executed alone in a fresh child, and those that kill it again are reported as
+/// violations with the journalled case as the replay file.
+fn supervise(args: &[String], id: &str, root: &Path, build: &str) -> i32 {
+    let exe = std::env::current_exe().expect("current_exe");
+    let jdir = std::env::temp_dir().join(format!("vcheck-journal-{}-{}", id, std::process::id()));
+    let _ = std::fs::remove_dir_all(&jdir);
+    let _ = std::fs::create_dir_all(&jdir);
+    let status = std::process::Command::new(&exe).args(&args[1..]).env("VCHECK_CHILD", "1").env("VCHECK_JOURNAL_DIR", &jdir).status();
+    let code = match status {
+        Ok(s) => s.code(),
+        Err(e) => {
+            eprintln!("cannot spawn child: {e}");
+            let _ = std::fs::remove_dir_all(&jdir);
+            return 2;
+        }
+    };
+    if let Some(c) = code {
+        if (0..=2).contains(&c) {
+            let _ = std::fs::remove_dir_all(&jdir);
+            return c;
+        }
+    }
+    eprintln!("[{id}:{build}] child terminated abnormally ({status:?}); re-executing the journalled cases one by one");
+    let mut found = 0;
+    if let Ok(rd) = std::fs::read_dir(&jdir) {
+        let mut files: Vec<PathBuf> = rd.filter_map(|e| e.ok()).map(|e| e.path()).collect();
+        files.sort();
+        for f in files {
+            let Ok(txt) = std::fs::read_to_string(&f) else { continue };
+            let Ok(mut case) = serde_json::from_str::<Value>(&txt) else { continue };
+            let st = std::process::Command::new(&exe)
+                .args([id, "--build", build, "--root", &root.display().to_string(), "--replay", &f.display().to_string()])
+                .env("VCHECK_CHILD", "1")
+                .stdout(std::process::Stdio::null())
+                .status();
+            let dies = match st {
+                Ok(s) => !matches!(s.code(), Some(0)),
+                Err(_) => false,
+            };
+            if dies {
+                if let Value::Object(m) = &mut case {
+                    m.insert("signature".into(), json!(format!("{id}:abnormal-termination")));
+                    m.insert("message".into(), json!(format!("executing this case terminates the process abnormally in build {build} ({st:?})")));
+                    m.insert("build".into(), json!(build));
+                }
+                let dir = root.join("replays").join(id);
+                let _ = std::fs::create_dir_all(&dir);
+                let body = serde_json::to_string_pretty(&case).unwrap();
+                let path = dir.join(format!("new-{:016x}.json", hash_str(&body)));
+                let _ = std::fs::write(&path, body);
+                println!("violation: case terminates the process abnormally in build {build}");
+                println!("VIOLATION property={} replay={}", id, path.display());
+                found += 1;
+            }
+        }
+    }
+    let _ = std::fs::remove_dir_all(&jdir);
+    if found > 0 {
+        1
+    } else {
+        eprintln!("INCONCLUSIVE: abnormal termination did not reproduce from the journalled cases (reported as infrastructure, not as a violation)");
+        2
+    }
 }
